@@ -115,8 +115,8 @@ static Foam	gcvLFmtStk;		/* Prog lexical format stack */
 static Foam	gcvDefs;		/* Unit definitions */
 static FoamList gcvLexStk = 0;		/* Unit/Prog lexicals stack */
 static Bool	gcvIsLeaf;		/* True iff prog is a leaf proc */
-static int	gcvIdChars[CHAR_MAX];	/* Array of special print chars */
-static int	gcvIdCharc[CHAR_MAX];	/* Array of special print lengths */
+static int	gcvIdChars[UCHAR_MAX + 1];	/* Array of special print chars */
+static int	gcvIdCharc[UCHAR_MAX + 1];	/* Array of special print lengths */
 static int	gcvNLocs  = 0;		/* Number of locals */
 static int	gcvNStmts = 0;		/* Number of statements */
 static int	gcvNBInts = 0;		/* Counter for global big ints */
@@ -477,7 +477,7 @@ genCSetSMax(int n)
 }
 
 #define	gc0UnderIdLen(buf,i)	\
-	(gcvIdLen == 0 || bufPosition(buf) + gcvIdCharc[i] <= gcvIdLen)
+	(gcvIdLen == 0 || bufPosition(buf) + gcvIdCharc[(unsigned char) (i)] <= gcvIdLen)
 
 void
 genCSetIdLen(int n)
@@ -6499,7 +6499,7 @@ gc0ValidIdInBuf(Buffer buf, String s)
 	int	pos0;
 	pos0 = bufPosition(buf);
 	for ( ; *s && gc0UnderIdLen(buf, (int)*s); s++) {
-		int k = gcvIdChars[(int)*s];
+		int k = gcvIdChars[(unsigned char) *s];	/* (bytes above 127 are legal in an escaped identifier) */
 		if (k == NOT_CHANGED)
 			bufAdd1(buf, *s);
 		else if (k != NOT_PRINTABLE)
@@ -6544,8 +6544,8 @@ gc0InitSpecialChars(void)
 {
 	int	i;
  
-	for (i = 0; i < CHAR_MAX; i++) {
-		if (isalnum(i)) {
+	for (i = 0; i <= UCHAR_MAX; i++) {
+		if (i < CHAR_MAX && isalnum(i)) {
 			gcvIdChars[i] = NOT_CHANGED;
 			gcvIdCharc[i] = 1;
 		}
